@@ -141,7 +141,7 @@ def gen_trait(root, notes, server=False, dirsink=False):
     L.append('    spec fn ids_ok(&self, uid: u32, gid: u32) -> bool;      // owner ids a setattr may carry')
     if server:
         L.append('    spec fn res_read_data(&self) -> Seq<u8>;                // the bytes a read produced into the writer it was given')
-    if dirsink:
+    if dirsink and dirsink != 'opaque':
         L.append('    spec fn res_dir_data(&self) -> Seq<u8>;                 // the directory entries a readdir(plus) got appended to the reply')
     info = {}
     seen_res = set()
@@ -155,8 +155,12 @@ def gen_trait(root, notes, server=False, dirsink=False):
             st, se, et, g = spec_of(n, t)
             if t == '&mut Context':
                 mut_ctx = True
-            if g and g not in gens:
+            if g and g not in gens and not (dirsink == 'opaque' and t.startswith('&mut dyn FnMut(DirEntry')):
                 gens.append(g)
+            if t.startswith('&mut dyn FnMut(DirEntry') and dirsink == 'opaque':
+                # forwarding units (arcfs): the callback is an opaque object that can only be handed on
+                eparams.append('%s: &mut DirSink' % n)
+                continue
             if t.startswith('&mut dyn FnMut(DirEntry'):
                 eparams.append('cursor: %s' % et)
                 sargs.append('max: u32')
@@ -200,7 +204,7 @@ def gen_trait(root, notes, server=False, dirsink=False):
         if server and ret and ret.startswith('io::Result'):
             # T8: an error returned by a filesystem carries a positive errno
             ens.append('res is Err ==> err_ok(res->Err_0)')
-        if name in ('readdir', 'readdirplus'):
+        if name in ('readdir', 'readdirplus') and dirsink != 'opaque':
             # T8: a filesystem only calls add_entry (any number of times, stopping at the first error it returns) - so the
             # cursor only grows by what add_dirent appends (proved for add_dirent: whole 8-byte aligned entries within `max`)
             L.insert(len(L) - 0, '            old(cursor).buffered@, // [assert]')
@@ -260,7 +264,7 @@ def gen_impl(root, struct, inode_ty, handle_ty, notes, generics=''):
     return '\n'.join(L)
 
 
-def gen_forward_impl_header(root, notes, server=True):
+def gen_forward_impl_header(root, notes, server=True, dirsink=False):
     """`impl<FS: FileSystem> FileSystem for Arc<FS> {` with every spec function defined as the inner object's: the trait
     contract of each method then says exactly "forwards to the same operation of the inner filesystem with the same arguments"."""
     ms = parse_methods(root)
@@ -272,11 +276,13 @@ def gen_forward_impl_header(root, notes, server=True):
     seen = set()
     names = []
     for m in ms:
-        if m['name'] in OMIT:
+        if m['name'] in OMIT and not dirsink:
             continue
         sargs, anames = [], []
         mut_ctx = False
         for (n, t) in m['params']:
+            if t.startswith('&mut dyn FnMut(DirEntry'):
+                continue
             st, se, et, g = spec_of(n, t)
             if t == '&mut Context':
                 mut_ctx = True
